@@ -72,7 +72,7 @@ PROPS = {
         "assumptions": ["informer caches are monotone per kind", "run objects are removed by others only after their Trial completed", "algorithm service returns fresh names"],
     },
     "C06": {
-        "prop_files": ['Katib/Props/C06.lean', 'Katib/Props/C06World.lean', 'Katib/Props/C06Running.lean', 'Katib/Props/C06Objective.lean', 'Katib/Props/C06Job.lean', 'Katib/Props/C06Bridge.lean'],
+        "prop_files": ['Katib/Props/C06.lean', 'Katib/Props/C06World.lean', 'Katib/Props/C06Running.lean', 'Katib/Props/C06Objective.lean', 'Katib/Props/C06Job.lean', 'Katib/Props/C06Bridge.lean', 'Katib/Props/C06Guards.lean'],
         "streams": [('SIM', {'quick': 240, 'thorough': 8000}), ('C06J', {'quick': 4000, 'thorough': 200000})],
         "rule": "seeded random schedules of the three real reconcilers on the fake client (1-2 experiments, optionally equally named in two namespaces; maxTrialCount 1-4/unset, parallel 1-3, maxFailed, goal, three resume policies, early stopping, retain, push collector), ops = reconciles with per-kind monotone lagging views (random lag, stalled informers, one kind's cache held for several reconciles - also exactly at the Experiment copy from before its verdict), write-fault masks, abort points, algorithm reply faults (short/long/error, rules RPC error), job outcomes, metric arrival (also after the verdict), early stop, deployment ready, external removal of a completed trial's run object, a run-object-creating reconcile cut off before its status write with the job finishing before the retry; scripted RPC failures cycle through gRPC status codes; then fault-free settling to quiescence, a quiescence probe, optionally one or two budget raises each with a second settling, and optionally a teardown in which Trials are deleted and reconciled while the database call or the finalizer write fails; every op's write log and the whole store are compared with the Lean model; a case = one schedule; distinct = distinct op sequence; stream C06J: job status documents (0-4 entries of status.conditions with string members type/condition/state, status, reason, message, a stray `condition` member, lastProbeTime; no status / no conditions) x failure and success conditions of the two GJSON shapes Katib writes (`#(k==v)#|#(status==True)#`, `#(k==v)`) through the real GetDeployedJobStatus, Trial Running or not, run object named or not",
         "trusted": ["controller-runtime fake client stands in for the kube-apiserver (rv conflicts, status subresource, AlreadyExists)",
